@@ -2,7 +2,7 @@
 # Offline setup: overlay venv on top of /venv (which has PEPit's deps), plus z3 / sympy / cvc5 / crosshair.
 set -e
 cd "$(dirname "$0")"
-V=/verif/.venv
+V="${VERIF_VENV:-/verif/.venv}"
 if [ ! -x "$V/bin/python" ] || ! "$V/bin/python" -c "import z3, sympy, numpy, cvxpy" 2>/dev/null; then
   rm -rf "$V"
   /venv/bin/python -m venv "$V"
